@@ -115,6 +115,12 @@ func c17Cases(tier string, seed uint64) []fw.Case {
 		cc := c17Case{Kind: "conditions", Procs: []int{4, 16}[i%2], Reps: reps * 2, Name: fmt.Sprintf("conditions/%d", i)}
 		cs = append(cs, fw.MkCase("conditions", &cc))
 	}
+	// an event bus shared by instances that come and go: events are handed to the bus (and by it to every
+	// registered instance) while further instances are being constructed on it
+	for i := 0; i < 3; i++ {
+		cc := c17Case{Kind: "bus", Procs: []int{4, 16, 2}[i], Reps: reps, Name: fmt.Sprintf("bus/%d", i)}
+		cs = append(cs, fw.MkCase("bus", &cc))
+	}
 	// the same with 96 branches: one process that has seen several hundred distinct condition texts (whatever the
 	// expression engines keep per text has grown, been trimmed or been rebuilt) and goes on compiling concurrently
 	for i := 0; i < 2; i++ {
@@ -333,6 +339,94 @@ func c17Objects(env *fw.Env, v *fw.V) {
 	v.Add("object-answers", 4)
 }
 
+// c17Bus: one event.FanOut is ingress and egress of several instances (start -> catch s1 -> task -> end). Two
+// goroutines hand events to the bus while a third constructs and starts further instances on it; every instance
+// that was listening before the deliveries began must have continued exactly once.
+func c17Bus(env *fw.Env, v *fw.V) {
+	g := gen.NewGraph("c17b")
+	s := g.Add(gen.Start, "start", "")
+	c := g.Add(gen.Catch, "c1", "")
+	c.Events = []gen.EventDef{{Type: "signal", Ref: "s1"}}
+	t := g.Add(gen.Task, "t1", "")
+	e := g.Add(gen.End, "end", "")
+	g.Connect(s, c, nil)
+	g.Connect(c, t, nil)
+	g.Connect(t, e, nil)
+	defs, _, err := step.Parse(g)
+	if err != nil {
+		v.Inconclusive("parse", "%v", err)
+		return
+	}
+	perturb.Off()
+	bus := event.NewFanOut()
+	opts := drive.Opts{RawOptions: []bpmn.Option{bpmn.WithEventEgress(bus), bpmn.WithEventIngress(bus)}}
+	var first []*drive.Inst
+	for i := 0; i < 3; i++ {
+		in, err := drive.New(env.Label, defs, opts)
+		if err != nil {
+			v.Violate("new-process-error", "bus", "%v", err)
+			return
+		}
+		defer in.Cancel()
+		if err := in.Start(); err != nil {
+			v.Violate("start-error", "bus", "%v", err)
+			return
+		}
+		in.Quiesce(step.Watchdog)
+		first = append(first, in)
+	}
+	var wg sync.WaitGroup
+	var mu sync.Mutex
+	var late []*drive.Inst
+	barrier := make(chan struct{})
+	wg.Add(3)
+	for k := 0; k < 2; k++ {
+		go func(k int) {
+			defer wg.Done()
+			<-barrier
+			for i := 0; i < 40; i++ {
+				ref := "zz"
+				if k == 0 && i == 20 {
+					ref = "s1"
+				}
+				bus.ConsumeEvent(event.NewSignalEvent(ref))
+			}
+		}(k)
+	}
+	go func() {
+		defer wg.Done()
+		<-barrier
+		for i := 0; i < 12; i++ {
+			in, err := drive.New(env.Label, defs, opts)
+			if err != nil {
+				return
+			}
+			in.Start()
+			mu.Lock()
+			late = append(late, in)
+			mu.Unlock()
+		}
+	}()
+	close(barrier)
+	wg.Wait()
+	for _, in := range late {
+		defer in.Cancel()
+	}
+	for i, in := range first {
+		q := in.Quiesce(step.Watchdog)
+		if !q.Quiescent {
+			v.Inconclusive("watchdog", "no quiescent point")
+			return
+		}
+		if p := in.PendingActs(); len(p) != 1 || p[0] != "t1" {
+			v.Violate("outcome-listener-missed", "bus", "instance %d listened on the shared bus before the events were handed over; after one matching event among 80 its pending requests are %v, expected [t1]", i, p)
+			return
+		}
+	}
+	v.Add("bus-events", 80)
+	v.Add("bus-instances", len(first)+len(late))
+}
+
 // many tokens evaluating (distinct, never seen before) conditions at the same time
 func c17Conditions(env *fw.Env, v *fw.V, rep int, name string, width int) {
 	g := gen.NewGraph("c17c")
@@ -477,6 +571,8 @@ func c17Run(c *c17Case, env *fw.Env, v *fw.V) {
 			c17Locator(v)
 		case "objects":
 			fw.Rep(env, i, func(env *fw.Env) { c17Objects(env, v) })
+		case "bus":
+			fw.Rep(env, i, func(env *fw.Env) { c17Bus(env, v) })
 		case "conditions":
 			w := c.Width
 			if w == 0 {
